@@ -454,6 +454,10 @@ class Schema:
                         cands.append(s)
             if not cands:
                 return False
+            if ip.path.guards:
+                # inside a lazily evaluated sequence element: hand back the class test as a term instead of forking
+                from .values import SBool
+                return SBool(self.kinds.is_any(v.ref, cands))
             d = ip.path.branch(self.kinds.is_any(v.ref, cands), f"isinstance({v.ref},{'|'.join(names)})")
             if d and len(cands) == 1:
                 self.learn_kind(ip, v.ref, cands[0])
@@ -689,6 +693,37 @@ class Schema:
             m = ip.models.len_term(s.n)
             n = z3.If(n <= m, n, m)          # zip truncates to the shortest (that is exactly what C11 must exclude)
         return SSeq(z3.simplify(n), lambda k: tuple(s.get(k) for s in seqs), "list", "zip")
+
+    def matrix_from_rows(self, ip, rows):
+        """np.array([[...], [...]]): a 2-D real array with a concrete number of rows; entries are defined pointwise
+        (instantiated at every index term in use)."""
+        from .values import SArr
+        seqs_ = [ip.models.as_seq(r) for r in rows]
+        m = len(seqs_)
+        n = ip.models.len_term(seqs_[0].n)
+        for r in seqs_[1:]:
+            ip.path.assume(ip.models.len_term(r.n) == n)       # NumPy would build an object array otherwise; optyx builds full rows
+        M = sym.fresh("matrix", sym.RealMat)
+        for i, r in enumerate(seqs_):
+            rowarr = sym.fresh(f"matrow{i}", sym.RealArr)
+            ip.path.assume(z3.Select(M, z3.IntVal(i)) == rowarr)
+            h = getattr(ip.reg, "define_array_hook", None)
+            if h is None:
+                raise Unsupported("np.array of rows without the sequence theory")
+            h(ip, rowarr, n, lambda k, r=r: real_term(r.get(k)))
+        return SArr(M, shape=(m, n))
+
+    def reshape(self, ip, recv, args):
+        from .values import SArr, SSeq
+        if len(args) == 1 and isinstance(args[0], tuple):
+            args = args[0]
+        args = tuple(args)
+        one_d = isinstance(recv, SSeq) or (isinstance(recv, SArr) and recv.shape is None)
+        if one_d and args == (1, -1):
+            return self.matrix_from_rows(ip, [recv])
+        if one_d and args == (-1,):
+            return recv
+        raise Unsupported(f"reshape{args}")
 
     def scatter_assign(self, ip, arr, idx, val, node=None):
         h = getattr(ip.reg, "scatter_assign_hook", None)
